@@ -178,9 +178,16 @@ def keyIdx (keys : List (α × α)) (p : Particle α) : Nat :=
 def newObjId (nat : Nat → α) (start : α) (l : Motl α) (p : Particle α) : α :=
   start + nat (keyIdx (objKeysCfg l) p)
 
-/-- `renumber_objects_sequentially(starting_number)` -/
+/-- the renumbering with the class list `keys` already computed -/
+def renumberObjectsWith (nat : Nat → α) (start : α) (keys : List (α × α)) (l : Motl α) : Motl α :=
+  l.map (fun p => p.set .object_id (start + nat (keyIdx keys p)))
+
+/-- `renumber_objects_sequentially(starting_number)`.  The class list `objKeysCfg l` is computed ONCE and
+handed to `renumberObjectsWith` (an argument is evaluated before the call), not once per row inside the
+`map`; `renumberObjects_eq_map_newObjId` (`Props/C08.lean`, by `rfl`) is the row-by-row reading
+`l.map (fun p => p.set .object_id (newObjId nat start l p))` all theorems use. -/
 def renumberObjects (nat : Nat → α) (start : α) (l : Motl α) : Motl α :=
-  l.map (fun p => p.set .object_id (newObjId nat start l p))
+  renumberObjectsWith nat start (objKeysCfg l) l
 
 end merge
 
